@@ -2423,6 +2423,22 @@ Box<ITV>::add_constraints_no_check(const Constraint_System& cs) {
   // Note: even when the box is known to be empty, we need to go
   // through all the constraints to fulfill the method's contract
   // for what concerns exception throwing.
+  // The whole system is validated first, so that nothing is added
+  // if one of the constraints is rejected.
+  for (Constraint_System::const_iterator i = cs.begin(),
+         cs_end = cs.end(); i != cs_end; ++i) {
+    dimension_type c_num_vars = 0;
+    dimension_type c_only_var = 0;
+    if (!Box_Helpers::extract_interval_constraint(*i, c_num_vars, c_only_var)) {
+      throw_invalid_argument("add_constraints(cs)",
+                             "cs contains a non-interval constraint");
+    }
+    if (i->is_strict_inequality() && c_num_vars != 0
+        && ITV::is_always_topologically_closed()) {
+      throw_invalid_argument("add_constraints(cs)",
+                             "cs contains a nontrivial strict constraint");
+    }
+  }
   for (Constraint_System::const_iterator i = cs.begin(),
          cs_end = cs.end(); i != cs_end; ++i) {
     add_constraint_no_check(*i);
@@ -2485,6 +2501,26 @@ Box<ITV>::add_congruences_no_check(const Congruence_System& cgs) {
   // Note: even when the box is known to be empty, we need to go
   // through all the congruences to fulfill the method's contract
   // for what concerns exception throwing.
+  // The whole system is validated first, so that nothing is added
+  // if one of the congruences is rejected.
+  for (Congruence_System::const_iterator i = cgs.begin(),
+         cgs_end = cgs.end(); i != cgs_end; ++i) {
+    if (i->is_proper_congruence()) {
+      if (!i->is_inconsistent() && !i->is_tautological()) {
+        throw_invalid_argument("add_congruences(cgs)",
+                               "cgs contains a nontrivial proper congruence");
+      }
+    }
+    else {
+      dimension_type cg_num_vars = 0;
+      dimension_type cg_only_var = 0;
+      if (!Box_Helpers::extract_interval_congruence(*i, cg_num_vars,
+                                                    cg_only_var)) {
+        throw_invalid_argument("add_congruences(cgs)",
+                               "cgs contains a non-interval congruence");
+      }
+    }
+  }
   for (Congruence_System::const_iterator i = cgs.begin(),
          cgs_end = cgs.end(); i != cgs_end; ++i) {
     add_congruence_no_check(*i);
